@@ -10,7 +10,7 @@ for sig in sigs.split(","):
     if status == "fixed":
         e["commit"] = commit
         e["line"] = "fixed: property=%s %s %s" % (prop, commit, what)
-    d["findings"] = [x for x in d["findings"] if not (x["property"] == prop and x["signature"] == sig)]
+    d["findings"] = [x for x in d["findings"] if not (x["property"] == prop and x["signature"] == sig and x.get("commit", "-") == (commit if status == "fixed" else "-"))]
     d["findings"].append(e)
 json.dump(d, open(p, "w"), indent=1)
 print("recorded", prop, status, sigs)
